@@ -299,6 +299,9 @@ func c06(c *Ctx) {
 		scs = append(scs, LifeScenario{Cause: cause, Closers: 1, Flood: true, UseCtx: true, SlowServer: true, PeerStalled: true, OutBacklog: 60, OutFrom: "user"},
 			LifeScenario{Cause: cause, Closers: 1, Flood: true, UseCtx: true, SlowServer: true, PeerStalled: true, OutBacklog: 60, OutFrom: "handler"})
 		tags = append(tags, "peer-stalled-for-good/"+cause, "peer-stalled-for-good/"+cause)
+		// the same with keep-alive PINGs coming due during the stall (the ping goroutine then sits on the full queue too)
+		scs = append(scs, LifeScenario{Cause: cause, Closers: 1, Flood: true, UseCtx: true, SlowServer: true, PeerStalled: true, OutBacklog: 60, OutFrom: "handler", PingFreqMs: 10, SilentMs: 100})
+		tags = append(tags, "peer-stalled-for-good+pings-due/"+cause)
 	}
 	// flood protection ON and saturated: the send goroutine sits in a hold, the queue is full, a handler is blocked on it,
 	// and then the connection ends (context cancelled, Close, EOF): the teardown still happens, once
@@ -434,6 +437,9 @@ func c07(c *Ctx) {
 		scs = append(scs, LifeScenario{Cause: cause, Closers: 1, Flood: true, UseCtx: true, SlowServer: true, PeerStalled: true, OutBacklog: 60, OutFrom: "user"},
 			LifeScenario{Cause: cause, Closers: 1, Flood: true, UseCtx: true, SlowServer: true, PeerStalled: true, OutBacklog: 60, OutFrom: "handler"})
 		tags = append(tags, "peer-stalled-for-good/"+cause, "peer-stalled-for-good/"+cause)
+		// the same with keep-alive PINGs coming due during the stall (the ping goroutine then sits on the full queue too)
+		scs = append(scs, LifeScenario{Cause: cause, Closers: 1, Flood: true, UseCtx: true, SlowServer: true, PeerStalled: true, OutBacklog: 60, OutFrom: "handler", PingFreqMs: 10, SilentMs: 100})
+		tags = append(tags, "peer-stalled-for-good+pings-due/"+cause)
 	}
 	// flood protection ON and saturated: the send goroutine sits in a hold, the queue is full, a handler is blocked on it,
 	// and then the connection ends (context cancelled, Close, EOF): the teardown still happens, once
